@@ -62,6 +62,14 @@ struct StatefulNonTrivialCmp {  // a comparator that is not trivially relocatabl
   StatefulNonTrivialCmp(); StatefulNonTrivialCmp(const StatefulNonTrivialCmp &); StatefulNonTrivialCmp &operator=(const StatefulNonTrivialCmp &); ~StatefulNonTrivialCmp();
   template <class T> bool operator()(const T &, const T &) const;
 };
+struct StatefulTrivialCmp {  // stateful but trivially copyable: relocatable
+  int dir;
+  template <class T> bool operator()(const T &, const T &) const;
+};
+struct EmptyNonTrivialCmp {  // empty but with a user-provided copy constructor: not relocatable without a declaration
+  EmptyNonTrivialCmp(); EmptyNonTrivialCmp(const EmptyNonTrivialCmp &); EmptyNonTrivialCmp &operator=(const EmptyNonTrivialCmp &);
+  template <class T> bool operator()(const T &, const T &) const;
+};
 template <class V> struct SwapNoexcept { static const bool value = noexcept(std::declval<V &>().swap(std::declval<V &>())); };
 
 template <class T> void row_T(const char *t) {
@@ -86,8 +94,14 @@ template <class T> void row_SETS(const char *t) {
   typedef amc::FlatSet<T, std::less<T>, amc::allocator<T>, amc::SmallVector<T, 3> > F2;
   typedef amc::FlatSet<T, std::less<T>, amc::vec::EmptyAlloc, amc::FixedCapacityVector<T, 5> > F3;
   typedef amc::FlatSet<T, StatefulNonTrivialCmp, amc::allocator<T>, amc::vector<T> > F4;
+  typedef amc::FlatSet<T, StatefulTrivialCmp, amc::allocator<T>, amc::SmallVector<T, 3> > F5;
+  typedef amc::FlatSet<T, StatefulTrivialCmp, amc::vec::EmptyAlloc, amc::FixedCapacityVector<T, 5> > F6;
+  typedef amc::FlatSet<T, EmptyNonTrivialCmp, amc::allocator<T>, amc::vector<T> > F7;
+  typedef amc::FlatSet<T, StatefulTrivialCmp, amc::allocator<T>, amc::vector<T> > F8;
   printf("FS %s over_vector=%d over_small=%d over_fixed=%d nontrivial_cmp=%d", t, (int)amc::is_trivially_relocatable<F1>::value, (int)amc::is_trivially_relocatable<F2>::value,
          (int)amc::is_trivially_relocatable<F3>::value, (int)amc::is_trivially_relocatable<F4>::value);
+  printf(" stateful_cmp_over_small=%d stateful_cmp_over_fixed=%d empty_nontrivial_cmp=%d stateful_cmp_over_vector=%d", (int)amc::is_trivially_relocatable<F5>::value,
+         (int)amc::is_trivially_relocatable<F6>::value, (int)amc::is_trivially_relocatable<F7>::value, (int)amc::is_trivially_relocatable<F8>::value);
 #ifdef AMC_SMALLSET
   typedef amc::SmallSet<T, 3, std::less<T>, amc::allocator<T>, F1> S1;
   typedef amc::SmallSet<T, 3, std::less<T>, amc::allocator<T> > S2;
@@ -221,7 +235,8 @@ def check_FV(vals, sz, al, cat, n):
 def check_SETS(vals, cat, has_smallset):
     errs = []
     tr = int(is_tr(cat))
-    exp = {"over_vector": 1, "over_small": tr, "over_fixed": tr, "nontrivial_cmp": 0}
+    exp = {"over_vector": 1, "over_small": tr, "over_fixed": tr, "nontrivial_cmp": 0, "stateful_cmp_over_small": tr, "stateful_cmp_over_fixed": tr,
+           "empty_nontrivial_cmp": 0, "stateful_cmp_over_vector": 1}
     if has_smallset:
         exp.update({"ss_flat": tr, "ss_stdset": 0, "ss_nontrivial_cmp": 0})
     for k, e in exp.items():
